@@ -8,15 +8,15 @@ LEVEL_NOTE = ("float64 read as exact reals (no NaN/Inf/rounding), integers mathe
 
 claimed = {
  "C01": dict(
-   text="Deductive proof, per constructor, of the induction step of 'every expression tree has an enclosing box': with abstract operands assumed only to have an ordered box enclosing their solid (plus the stated Chebyshev lower bound for Offset/Shell/rounded extrusions), the box stored by the real constructor is ordered and contains every point where the real Evaluate of the result is negative, for all parameters and all points. Constructors not yet under contract (unions, arrays, rotate-unions, screw, text, obj parts, cams, gears) are listed in the evidence as not_decided.",
+   text="Deductive proof, per constructor, of the induction step of 'every expression tree has an enclosing box': with abstract operands assumed only to have an ordered box enclosing their solid (plus the stated Chebyshev lower bound for Offset/Shell/rounded extrusions), the box stored by the real constructor is ordered and contains every point where the real Evaluate of the result is negative, for all parameters and all points. Union2D / Union3D are proved for ANY number of operands (a symbolic array of abstract shapes, nil operands stripped, loop invariants; the union's Evaluate is seen through its separately proved contract 'the result is the value of one operand'). Constructors not yet under contract (arrays, rotate-unions, screw, text, obj parts, cams, gears) are listed in the evidence as not_decided.",
    design_ref="8.1",
    technique="contract-based deductive verification: constructor and Evaluate executed symbolically from go/ssa with uninterpreted operands, quantified operand assumptions instantiated at evaluation points, proof scripts (assert/use/generalize), SMT (QF_NRA)"),
  "C02": dict(
-   text="Deductive proof per combinator that the real Evaluate/constructor code denotes the named operation, for all parameters and points: blend functions (RoundMin, ChamferMin, ExpMin, PolyMin/PolyMax) never remove material, are symmetric and obey the k/4 fillet bound; M22/M33/M44.Inverse are two-sided inverses; rotation constructors are rigid. Scope grows with the contract file; sentences not under contract are listed in the evidence as not_decided.",
+   text="Deductive proof per combinator that the real Evaluate/constructor code denotes the named operation, for all parameters and points: blend functions (RoundMin, ChamferMin, ExpMin, PolyMin/PolyMax) never remove material, are symmetric and obey the k/4 fillet bound; M22/M33/M44.Inverse are two-sided inverses; rotation constructors are rigid. n-ary unions: UnionSDF2.EvaluateSlow and UnionSDF3.Evaluate are the left fold of the installed minimum function over all operands in order (recursive spec function, loop invariant), and with the plain minimum the result is <= every operand's value and equal to one of them. Scope grows with the contract file; sentences not under contract are listed in the evidence as not_decided.",
    design_ref="8.2",
    technique="contract-based deductive verification: per-path VCs from go/ssa symbolic execution with abstract (uninterpreted) operands, discharged by SMT (QF_NRA + axiomatised exp/log/trig)"),
  "C03": dict(
-   text="Deductive proof that the real Evaluate of sphere, circle, (rounded) box 2D/3D, line, (rounded) cylinder and capsule equals the independent closed-form Euclidean signed distance at every point, and that union/intersection/difference (plain and with the polynomial blend), cut, offset, shell, elongate, plain extrusion, full revolution and uniform scale preserve the two-point 1-Lipschitz property of abstract operands. EXACT => LIP for primitives, the cone, polygons, rotate-copy/union, arrays, rounded extrusion and partial revolution are not yet under contract (not_decided).",
+   text="Deductive proof that the real Evaluate of sphere, circle, (rounded) box 2D/3D, line, (rounded) cylinder and capsule equals the independent closed-form Euclidean signed distance at every point, and that union/intersection/difference (plain and with the polynomial blend), cut, offset, shell, elongate, plain extrusion, full revolution and uniform scale preserve the two-point 1-Lipschitz property of abstract operands. Union3D preserves it for ANY number of operands (loop invariants over a symbolic array of shapes). EXACT => LIP for primitives, the cone, polygons, rotate-copy/union, arrays, rounded extrusion and partial revolution are not yet under contract (not_decided).",
    design_ref="8.3",
    technique="contract-based deductive verification: per-path VCs against independent spec functions; two-point Lipschitz contracts with quantified operand assumptions instantiated at evaluation points; lemma library (Lagrange identity, sup-norm Lipschitz of the polynomial blend) proved in the same run"),
  "C04": dict(
@@ -72,7 +72,7 @@ claimed = {
    design_ref="8.15",
    technique="contract-based deductive verification: per-iteration obligations over a by-value ghost log of external library calls, loop invariants over symbolic slices"),
  "C16": dict(
-   text="Deductive proof, for all boxes and points, that Box2/Box3.MinMaxDist2 of the real code equal the clamp / farthest-corner oracle, and that Interval.Overlap holds iff the intervals share a value; per-path verification conditions generated from the SSA of /repo's working tree and discharged by z3 4.8.12 / z3 5.1.0.",
+   text="Deductive proof, for all boxes and points, that Box2/Box3.MinMaxDist2 of the real code equal the clamp / farthest-corner oracle, and that Interval.Overlap holds iff the intervals share a value; that the box-pruned UnionSDF2.Evaluate, for ANY number of operands (loop invariants with an existential witness over a symbolic array of abstract shapes) and the plain minimum, returns a value that no operand undercuts and that is one operand's value - i.e. the minimum, which is what EvaluateSlow computes - under the stated operand assumption (outside its box an operand is non-negative and at least the box distance; nowhere farther than the farthest corner); the 2- and 3-operand lemmas are kept; with a blend installed the sign can differ (known finding); per-path verification conditions generated from the SSA of /repo's working tree and discharged by z3 4.8.12 / z3 5.1.0.",
    design_ref="8.16",
    technique="contract-based deductive verification: weakest-precondition style VCs from go/ssa by symbolic execution, discharged by SMT (QF_NRA/LRA)"),
 }
